@@ -7,6 +7,9 @@ LEVEL = 'proof'
 def build(ctx):
     import contracts.relocate  # noqa
     common.pass_tasks(ctx)
+    # the label table is exact only if every item emits exactly size() bytes (labels are counted in size() units)
+    for p in ('resolve_instructions', 'resolve_strings', 'resolve_sequences', 'transform_shorthand_packs', 'resolve_packs', 'resolve_include_bytes'):
+        ctx.task('contracts.emit:task_emit_pass', p)
     common.encoder_tasks(ctx, lambda m: m in common.TRANSFER_MNEMONICS, parts=('legal', 'decode'))
     ctx.task('contracts.relocate:task_relocate')
     ctx.task('contracts.exprs:task_exprs')
@@ -17,7 +20,7 @@ def build(ctx):
 
 
 def bounded(ctx):
-    common.suites(ctx, ['dist', 'far', 'mix', 'pseudo', 'align', 'rand'], {'label', 'target'})
+    common.suites(ctx, ['dist', 'far', 'mix', 'pseudo', 'align', 'rand', 'data'], {'label', 'target'})
     ctx.task('bounded.tasks:split_task', 'mix')
     ctx.task('bounded.tasks:split_task', 'rand')
 
